@@ -938,6 +938,27 @@ theorem runAll_inv : ∀ (fuel : Nat) (s : State), OriginInv s → OriginInv (ru
       have hq' : OriginInv { s with runq := q } := h.congr rfl rfl rfl rfl rfl rfl rfl rfl rfl rfl
       exact runAll_inv fuel _ (runTask_inv hq' i)
 
+theorem abortTask_inv {s : State} (h : OriginInv s) (i : Nat) : OriginInv (abortTask s i) := by
+  unfold abortTask
+  cases ht : taskOf s i with
+  | none => exact h
+  | some t =>
+    cases t with
+    | whenReady c tk hp => exact (removeTask_inv h i).congr rfl rfl rfl rfl rfl rfl rfl rfl rfl rfl
+    | delayed r =>
+      simp only []
+      cases hco : s.co r with
+      | none => exact removeTask_inv h i
+      | some c => exact (delayedTail_inv h i r c hco (fun cid hc => h.co.2 r c cid hco hc)).1
+
+theorem abortAll_inv : ∀ (fuel : Nat) (s : State), OriginInv s → OriginInv (abortAll fuel s)
+  | 0, _, h => h
+  | fuel + 1, s, h => by
+    simp only [abortAll]
+    split
+    · exact h.congr rfl rfl rfl rfl rfl rfl rfl rfl rfl rfl
+    · exact abortAll_inv fuel _ (abortTask_inv h _)
+
 theorem wakeConn_inv {s : State} (h : OriginInv s) (c : ConnId) : OriginInv (wakeConn s c) :=
   h.congr rfl rfl rfl rfl rfl rfl rfl rfl rfl rfl
 
@@ -1038,6 +1059,7 @@ theorem step_originInv (s : State) (op : Op) (h : OriginInv s) : OriginInv (step
   | run => exact runAll_inv _ s h
   | tick ms => exact h.congr rfl rfl rfl rfl rfl rfl rfl rfl rfl rfl
   | mark => exact h
+  | shutdown => exact abortAll_inv _ s h
 
 theorem run_originInv : ∀ (ops : List Op) (s : State), OriginInv s → OriginInv (run s ops).1
   | [], _, h => h
@@ -1142,6 +1164,31 @@ theorem runAll_coSame : ∀ (fuel : Nat) (s : State), OriginInv s → CoSame s.c
       have hq' : OriginInv { s with runq := q } := h.congr rfl rfl rfl rfl rfl rfl rfl rfl rfl rfl
       exact (runTask_coSame hq' i).trans (runAll_coSame fuel _ (runTask_inv hq' i))
 
+theorem abortTask_coSame {s : State} (h : OriginInv s) (i : Nat) : CoSame s.co (abortTask s i).co := by
+  unfold abortTask
+  cases ht : taskOf s i with
+  | none => exact CoSame.refl _
+  | some t =>
+    cases t with
+    | whenReady c tk hp => exact CoSame.refl _
+    | delayed r =>
+      simp only []
+      cases hco : s.co r with
+      | none => exact CoSame.refl _
+      | some c =>
+        simp only []
+        have c4 : (cancelIfOwner (removeTask s i) c).co = s.co := (cancelIfOwner_inv (removeTask_inv h i) c).2.2
+        rw [c4]
+        exact CoSame.update hco rfl rfl
+
+theorem abortAll_coSame : ∀ (fuel : Nat) (s : State), OriginInv s → CoSame s.co (abortAll fuel s).co
+  | 0, _, _ => CoSame.refl _
+  | fuel + 1, s, h => by
+    simp only [abortAll]
+    split
+    · exact CoSame.refl _
+    · exact (abortTask_coSame h _).trans (abortAll_coSame fuel _ (abortTask_inv h _))
+
 theorem step_coSame (s : State) (op : Op) (h : OriginInv s) : CoSame s.co (step s op).1.co := by
   cases op with
   | issue r k mux =>
@@ -1232,5 +1279,6 @@ theorem step_coSame (s : State) (op : Op) (h : OriginInv s) : CoSame s.co (step 
   | run => exact runAll_coSame _ s h
   | tick ms => exact CoSame.refl _
   | mark => exact CoSame.refl _
+  | shutdown => exact abortAll_coSame _ s h
 
 end Hd.Pool
